@@ -1,5 +1,6 @@
 import ShellOp.Util
 import ShellOp.Model.Combine
+import ShellOp.Drv.C04
 /-! Line-protocol suite for C07 (combining adjacent tasks). Core-only.
 
 ```
@@ -20,6 +21,9 @@ structure St where
   tasks : List Task := []
   qs : QSet := []
   prev : QSet := []
+  /-- whole-operator cases (C07.6): the `task/begin/end/oracle …` lines of the C04 suite -/
+  op : Drv.C04.St := {}
+  opMode : Bool := false
 
 def findTask (st : St) (id : Nat) : Option Task := st.tasks.find? (·.id == id)
 
@@ -129,7 +133,13 @@ def parseOut (rest : List String) : Option Outcome :=
   | _ => none
 
 def step (st : St) (toks : List String) : St × String :=
+  if st.opMode then
+    -- whole-operator lines are answered by the retry model of C04 (which embeds `prepareRun`)
+    let (op', ans) := Drv.C04.step st.op toks
+    ({ st with op := op' }, ans)
+  else
   match toks with
+  | ["mode", "operator"] => ({ st with opMode := true }, "ok")
   | "task" :: id :: rest =>
     match parseTask id rest with
     | some t => ({ st with tasks := t :: st.tasks.filter (·.id != t.id) }, "ok")
